@@ -585,7 +585,7 @@ fn directed() -> Vec<(&'static str, Vec<Vec<(usize, usize, &'static str)>>)> {
 
 pub fn run(args: &Args) {
     let mut sink = Sink::new("C08", &args.out, &["Model.Buffer"], args.seed, &args.tier);
-    sink.rule("random originals (0..14 characters over an alphabet of 1/2/3/4-byte characters incl. the extremes of every width) x 1..4 successive batches of 1..4 ordered non-overlapping edits on character boundaries (delete / insert / shrink / expand / equal length; at start, middle, end; adjacent) through replace_ref/own/char/char_iter; every byte offset and every character index of the result is queried. Separate stream of malformed batches (unsorted, overlapping, reversed, off-boundary, out of range) compares Ok/Err/panic only. non-trivial = in scope, at least one edit, distinct Coq term. PIPELINE stream (shared generators with C01): the real tokenizer on generated plugin stacks x dictionaries (display form != key, exact / prefix-only / other-length split declarations) x modes A/B/C x requested field subsets x on-demand split_into x reuse sessions; for every reported morpheme begin_c/end_c = code points of the original before begin/end, slice by code points = slice by bytes = surface");
+    sink.rule("random originals (0..14 characters over an alphabet of 1/2/3/4-byte characters incl. the extremes of every width) x 1..4 successive batches of 1..4 ordered non-overlapping edits on character boundaries (delete / insert / shrink / expand / equal length; at start, middle, end; adjacent) through replace_ref/own/char/char_iter; every byte offset and every character index of the result is queried. Separate stream of malformed batches (unsorted, overlapping, reversed, off-boundary, out of range) compares Ok/Err/panic only. non-trivial = in scope, at least one edit, distinct Coq term. SESSION stream: one InputBuffer object reused for 1..3 texts (reset + new text), every text rewritten by 1..4 batches of which 2/5 are rejected by their closure after it recorded edits (with_editor answers Err); after every batch status, current() and the offset map are compared with the model and with a fresh reference buffer to which only the accepted batches are applied. PIPELINE stream (shared generators with C01): the real tokenizer on generated plugin stacks x dictionaries (display form != key, exact / prefix-only / other-length split declarations) x modes A/B/C x requested field subsets x on-demand split_into x reuse sessions; for every reported morpheme begin_c/end_c = code points of the original before begin/end, slice by code points = slice by bytes = surface");
     let grammar = test_grammar();
     if let Some(p) = &args.replay {
         if crate::c01::is_pipeline_case(p) {
@@ -595,6 +595,28 @@ pub fn run(args: &Args) {
         }
         let v: Value = serde_json::from_str(&std::fs::read_to_string(p).unwrap()).unwrap();
         let case = &v["case"];
+        if case["kind"] == "c08-session" {
+            let mut phases: Vec<Phase> = case["phases"]
+                .as_array()
+                .unwrap()
+                .iter()
+                .map(|ph| Phase {
+                    orig: ph["orig"].as_str().unwrap().to_string(),
+                    steps: ph["steps"]
+                        .as_array()
+                        .unwrap()
+                        .iter()
+                        .map(|s| StepSpec {
+                            fails: s["fails"].as_bool().unwrap(),
+                            edits: s["edits"].as_array().unwrap().iter().map(|e| EditSpec { s: e[0].as_u64().unwrap() as usize, e: e[1].as_u64().unwrap() as usize, w: e[2].as_str().unwrap().to_string(), kind: e[3].as_u64().unwrap() as u8 }).collect(),
+                        })
+                        .collect(),
+                })
+                .collect();
+            run_session_case(&mut sink, &mut phases, &mut None, true);
+            sink.finish();
+            return;
+        }
         if case["kind"] == "c08" {
             let orig = case["orig"].as_str().unwrap().to_string();
             let mut batches: Vec<Vec<EditSpec>> = case["batches"]
@@ -671,11 +693,180 @@ pub fn run(args: &Args) {
         emit(&mut sink, &orig, &batches, &out, false);
         sink.tag("malformed_stream");
     }
+    // one InputBuffer reused for several texts, batches rejected by their closure after recording edits
+    session_stream(&mut sink, &mut rng, args.n(300, 4000));
     // pipeline level (first sentence of the property): every morpheme the real tokenizer reports -- modes A/B/C, on-demand
     // splits, requested field subsets, dictionaries whose display forms differ from their keys, reuse sessions -- must carry
     // code-point offsets equal to the number of code points of the original before its byte offsets
     crate::c01::pipeline(crate::c01::Prop::C08, &mut sink, args, &mut rng);
     sink.finish();
+}
+
+// ================================================================== one InputBuffer, several texts, closures that fail
+/// One batch of a session: the closure records `edits` and then answers Ok (commit) or Err (the batch is rejected).
+#[derive(Clone, Debug)]
+struct StepSpec {
+    fails: bool,
+    edits: Vec<EditSpec>,
+}
+
+/// 0 = Ok, 1 = Err, 2 = panic
+fn apply_step(buf: &mut InputBuffer, st: &StepSpec) -> u8 {
+    let r = catch(|| {
+        buf.with_editor(|_, mut ed| {
+            for e in &st.edits {
+                match e.kind {
+                    0 => ed.replace_ref(e.s..e.e, &e.w),
+                    1 => ed.replace_own(e.s..e.e, e.w.clone()),
+                    2 => ed.replace_char(e.s..e.e, e.w.chars().next().unwrap()),
+                    _ => {
+                        let mut it = e.w.chars();
+                        let c = it.next().unwrap();
+                        ed.replace_char_iter(e.s..e.e, c, it)
+                    }
+                }
+            }
+            if st.fails {
+                Err(sudachi::error::SudachiError::EosBosDisconnect)
+            } else {
+                Ok(ed)
+            }
+        })
+    });
+    match r {
+        Ok(Ok(())) => 0,
+        Ok(Err(_)) => 1,
+        Err(_) => 2,
+    }
+}
+
+/// current() and the offset map of a buffer in RW state; None when reading it panics (a map shorter than the text)
+fn observe(buf: &InputBuffer) -> Option<(Vec<u8>, Vec<usize>)> {
+    catch(|| {
+        // bytes, not a String: whatever a broken buffer holds is recorded, never formatted as text
+        let cur = buf.current().as_bytes().to_vec();
+        let m2o: Vec<usize> = (0..=cur.len()).map(|i| buf.to_orig(i..i).start).collect();
+        (cur, m2o)
+    })
+    .ok()
+}
+fn show_obs(o: &Option<(Vec<u8>, Vec<usize>)>) -> String {
+    match o {
+        None => "unreadable (reading it panics)".to_string(),
+        Some((c, m)) => format!("{:?} {:?}", String::from_utf8_lossy(c), m),
+    }
+}
+
+struct Phase {
+    orig: String,
+    steps: Vec<StepSpec>,
+}
+
+fn session_desc(phases: &[Phase]) -> Value {
+    json!({"kind": "c08-session", "phases": phases.iter().map(|p| json!({"orig": p.orig,
+        "steps": p.steps.iter().map(|s| json!({"fails": s.fails, "edits": s.edits.iter().map(|e| json!([e.s, e.e, e.w, e.kind])).collect::<Vec<_>>()})).collect::<Vec<_>>()})).collect::<Vec<_>>()})
+}
+
+/// Runs the phases on ONE InputBuffer (reset + new text between them).  `gen` = Some: steps are generated from the state
+/// of a reference buffer as the session goes (and stored into `phases`); None: the stored steps are replayed.
+/// Reference: a FRESH buffer per text to which only the batches whose closure answers Ok are applied -- what the sequence of
+/// accepted batches defines, independent of anything a rejected batch or an earlier text may have left behind.
+fn run_session_case(sink: &mut Sink, phases: &mut Vec<Phase>, gen: &mut Option<&mut Rng>, verbose: bool) {
+    let mut buf = InputBuffer::new();
+    // every batch stays alive until the session is over: replace_ref hands out borrowed strings
+    let mut arena: Vec<Box<StepSpec>> = vec![];
+    let mut terms = vec![];
+    let mut failure: Option<String> = None;
+    let mut rejected_with_edits = 0u64;
+    for pi in 0..phases.len() {
+        let orig = phases[pi].orig.clone();
+        buf.reset().push_str(&orig);
+        let started = catch(|| buf.start_build().is_ok()).unwrap_or(false);
+        let mut obs_terms = vec![];
+        if started {
+            let mut reference = InputBuffer::from(orig.as_str());
+            let nsteps = if let Some(rng) = gen.as_mut() { 1 + rng.below(4) as usize } else { phases[pi].steps.len() };
+            for k in 0..nsteps {
+                if let Some(rng) = gen.as_mut() {
+                    let cur = reference.current().to_string();
+                    let fails = rng.chance(2, 5);
+                    let mut edits = gen_valid_batch(rng, &cur);
+                    if fails && edits.is_empty() {
+                        edits.push(EditSpec { s: 0, e: 0, w: "x".into(), kind: 0 });
+                    }
+                    phases[pi].steps.push(StepSpec { fails, edits });
+                }
+                arena.push(Box::new(phases[pi].steps[k].clone()));
+                let st: &StepSpec = unsafe { &*(arena.last().unwrap().as_ref() as *const StepSpec) };
+                if st.fails && !st.edits.is_empty() {
+                    rejected_with_edits += 1;
+                }
+                let status = apply_step(&mut buf, st);
+                let want_status = if st.fails { 1 } else { apply_batch(&mut reference, &st.edits) };
+                let got = observe(&buf);
+                let want = observe(&reference);
+                if verbose {
+                    println!("text {:?} batch {} ({}): {:?}", orig, k, if st.fails { "closure answers Err" } else { "closure answers Ok" }, st.edits.iter().map(|e| (e.s, e.e, e.w.as_str())).collect::<Vec<_>>());
+                    println!("  implementation: status {} state {}", status, show_obs(&got));
+                    println!("  reference     : status {} state {}", want_status, show_obs(&want));
+                }
+                let (cur, m2o) = got.clone().unwrap_or_default();
+                obs_terms.push(format!("({}, {}, {})", cn(status), cbytes(&cur), clist(m2o.iter().map(|x| cnu(*x)))));
+                if failure.is_none() && (status != want_status || (status != 2 && got != want)) {
+                    failure = Some(format!(
+                        "text {} batch {}: after the batch the buffer is (status {}) {}, the accepted batches alone give (status {}) {}",
+                        pi, k, status, show_obs(&got), want_status, show_obs(&want)
+                    ));
+                }
+                if status == 2 || want_status == 2 {
+                    // the state after a panic is nobody's contract: the session ends here
+                    phases[pi].steps.truncate(k + 1);
+                    phases.truncate(pi + 1);
+                    break;
+                }
+            }
+        }
+        let steps_term = clist(phases[pi].steps.iter().map(|s| format!("({}, {})", cbool(s.fails), edits_term(&s.edits))));
+        terms.push(format!("({}, {}, {})", cbytes(orig.as_bytes()), steps_term, clist(obs_terms)));
+        if pi + 1 >= phases.len() {
+            break;
+        }
+    }
+    sink.tag("session_on_one_buffer");
+    sink.tag_n("session_batches_rejected_after_recording_edits", rejected_with_edits);
+    sink.tag(&format!("session_texts={}", phases.len()));
+    let id = sink.case(format!("check_c08_session {}", clist(terms)), session_desc(phases), rejected_with_edits > 0);
+    if verbose {
+        println!("oracle    : {:?}", failure);
+    }
+    if let Some(w) = failure {
+        sink.fail(id, &w, "");
+    }
+}
+
+fn session_stream(sink: &mut Sink, rng: &mut Rng, n: usize) {
+    // directed: a rejected batch with edits, then an accepted one; then a new text on the same buffer
+    let mut directed = vec![
+        Phase { orig: "宇宙人".into(), steps: vec![StepSpec { fails: true, edits: vec![EditSpec { s: 0, e: 3, w: "銀河".into(), kind: 0 }] }, StepSpec { fails: false, edits: vec![EditSpec { s: 6, e: 9, w: "星".into(), kind: 0 }] }] },
+        Phase { orig: "☆東京都★".into(), steps: vec![StepSpec { fails: true, edits: vec![EditSpec { s: 0, e: 3, w: "星".into(), kind: 1 }] }] },
+        Phase { orig: "京都東京都".into(), steps: vec![StepSpec { fails: false, edits: vec![] }, StepSpec { fails: false, edits: vec![EditSpec { s: 6, e: 6, w: "x".into(), kind: 0 }] }] },
+    ];
+    run_session_case(sink, &mut directed, &mut None, false);
+    sink.tag("directed");
+    for _ in 0..n {
+        let ntexts = 1 + rng.below(3) as usize;
+        let mut phases: Vec<Phase> = (0..ntexts)
+            .map(|_| {
+                let mut s = rand_string(rng, 8);
+                if s.is_empty() {
+                    s = rand_string(rng, 5);
+                }
+                Phase { orig: s, steps: vec![] }
+            })
+            .collect();
+        let mut r2 = rng.fork();
+        run_session_case(sink, &mut phases, &mut Some(&mut r2), false);
+    }
 }
 
 /// the two length limits (MAX_LENGTH on the original, REALLY_MAX_LENGTH on the rewritten text)
